@@ -234,6 +234,10 @@ func Run(harnesses map[string]func()) (outcome string) {
 	}
 	vals, pos, notes, params = rf.Values, 0, nil, rf.Params
 	defer func() {
+		for _, f := range tempFiles {
+			os.Remove(f)
+		}
+		tempFiles = nil
 		for _, n := range notes {
 			fmt.Println("VRT-NOTE: " + n)
 		}
